@@ -112,6 +112,9 @@ class Raised:
         return "Raised(%s)" % self.brief()
 
 
+DEFAULT_RECURSION_LIMIT = 1000
+
+
 def short_tb(limit=6):
     et, ev, tb = sys.exc_info()
     lines = traceback.format_exception(et, ev, tb)
@@ -120,14 +123,24 @@ def short_tb(limit=6):
 
 def call(fn, *a, **k):
     """Run fn(*a, **k); return its value or a Raised.  The watchdog exception,
-    KeyboardInterrupt and harness errors propagate."""
+    KeyboardInterrupt and harness errors propagate.  The library runs under Python's DEFAULT recursion limit (the
+    workers raise theirs for the harness's own oracles): a recursion that gets too deep for a user gets too deep
+    here."""
+    lim = sys.getrecursionlimit()
+    if lim != DEFAULT_RECURSION_LIMIT:
+        sys.setrecursionlimit(DEFAULT_RECURSION_LIMIT)
     try:
         return fn(*a, **k)
     except (CaseTimeout, KeyboardInterrupt, HarnessError):
         raise
     except BaseException as e:  # noqa - SystemExit from tracklib's exit()
+        if lim != DEFAULT_RECURSION_LIMIT:
+            sys.setrecursionlimit(lim)
         CTX.exc(e)
         return Raised(e, short_tb())
+    finally:
+        if lim != DEFAULT_RECURSION_LIMIT:
+            sys.setrecursionlimit(lim)
 
 
 def is_raised(v):
